@@ -19,7 +19,7 @@ pub static DEF: PropDef = PropDef {
         "verdict classes compared: ok / assertion / jet failure; programs with fail nodes are skipped (C refuses them at decode); C ExecMemory/ExecBudget are outside the statement",
     ],
     shards: (32, 128),
-    budget_ms: (10_000, 30_000),
+    budget_ms: (60_000, 180_000),
 };
 
 fn rust_verdict(p: &RedeemNode, env: &envs::Env) -> Result<&'static str, String> {
